@@ -39,6 +39,17 @@ def classify(ctx: HandlerContext) -> Classification:
             i += 1
             break
 
+        # -S/--split-string: the argument is itself a command line
+        if token in ("-S", "--split-string") and i + 1 < len(tokens):
+            rest = " ".join([tokens[i + 1]] + tokens[i + 2 :])
+            return Classification("delegate", inner_command=rest)
+        if token.startswith("--split-string="):
+            rest = " ".join([token[len("--split-string=") :]] + tokens[i + 1 :])
+            return Classification("delegate", inner_command=rest)
+        if token.startswith("-S") and len(token) > 2:
+            rest = " ".join([token[2:]] + tokens[i + 1 :])
+            return Classification("delegate", inner_command=rest)
+
         if token in FLAGS_WITH_ARG:
             i += 2
             continue
